@@ -42,7 +42,7 @@ func genLevelValue(t *rapid.T, level string) string {
 
 // TestC18: environment and job variables reach exactly the right task commands.
 func TestC18(t *testing.T) {
-	col := ev.Get("C18", "env", "1-3 pipelines (concurrency 1 or 3, so that jobs also wait while later requests arrive) x 1-3 tasks with real processes; the jobs of a case are scheduled by ScheduleAsync or, in half of the cases, over the HTTP API; each of 6 variable names is assigned to a generated subset of {prunner process, pipeline, task} with distinct values containing spaces, quotes, newlines, $, =, backticks, non-ASCII and the empty string; 2-5 jobs run concurrently, each with its own variables (strings - also with & < > \" + $ ; and URL-like values -, numbers, booleans, nested maps); every task runs 'vhelper dumpenv' (a real child process), 'vhelper args \"${NAME-<unset>}\"...' (interpreter expansion) and 'vhelper args {{ .var }}...' (template); oracle per name: child value = task value if defined, else pipeline value, else process value, else unset, byte for byte; TASK_NAME = task name; the rendered script shows exactly its own job's variables; a job scheduled with the reserved variable name runs nothing, ends canceled with an error and leaves the job it named unchanged; non-trivial = a name defined at >=2 levels with a shell-special value and >=2 jobs overlapping; distinct by assignment")
+	col := ev.Get("C18", "env", "1-3 pipelines (concurrency 1 or 3, so that jobs also wait while later requests arrive) x 1-3 tasks with real processes; some tasks have environment variables named like a job variable or like the reserved job-identity variable (they are environment only); the jobs of a case are scheduled by ScheduleAsync or, in half of the cases, over the HTTP API; each of 6 variable names is assigned to a generated subset of {prunner process, pipeline, task} with distinct values containing spaces, quotes, newlines, $, =, backticks, non-ASCII and the empty string; 2-5 jobs run concurrently, each with its own variables (strings - also with & < > \" + $ ; and URL-like values -, numbers, booleans, nested maps); every task runs 'vhelper dumpenv' (a real child process), 'vhelper args \"${NAME-<unset>}\"...' (interpreter expansion) and 'vhelper args {{ .var }}...' (template); oracle per name: child value = task value if defined, else pipeline value, else process value, else unset, byte for byte; TASK_NAME = task name; the rendered script shows exactly its own job's variables; a job scheduled with the reserved variable name runs nothing, ends canceled with an error and leaves the job it named unchanged; non-trivial = a name defined at >=2 levels with a shell-special value and >=2 jobs overlapping; distinct by assignment")
 	vh := helper(t)
 	rapid.Check(t, func(rt *rapid.T) {
 		c := envCase{proc: map[string]string{}, pipes: map[string]map[string]string{}, tasks: map[string]map[string]map[string]string{}}
@@ -54,6 +54,7 @@ func TestC18(t *testing.T) {
 		}
 		multiLevel := false
 		special := false
+		clashes := 0
 		for p := 0; p < nP; p++ {
 			pn := fmt.Sprintf("p%d", p)
 			c.pipes[pn] = map[string]string{}
@@ -91,6 +92,25 @@ func TestC18(t *testing.T) {
 				}}
 				if len(c.tasks[pn][tn]) > 0 {
 					td.Env = c.tasks[pn][tn]
+				}
+				// environment variables that are named like a job variable, or like the variable that carries
+				// the job's identity: they are environment, the script is still rendered with the job's own
+				// variables and the task's state and logs stay with its job
+				if clash := rapid.IntRange(0, 3).Draw(rt, "envNamedLikeVariable"); clash > 0 {
+					env := map[string]string{}
+					for k, v := range td.Env {
+						env[k] = v
+					}
+					switch clash {
+					case 1:
+						env["v1"] = "from-task-env"
+					case 2:
+						env["__jobID"] = "11111111-2222-3333-4444-555555555555"
+					case 3:
+						env["v0"], env["nested"] = "from-task-env", "from-task-env"
+					}
+					td.Env = env
+					clashes++
 				}
 				pd.Tasks[tn] = td
 			}
@@ -267,7 +287,7 @@ func TestC18(t *testing.T) {
 			}
 		}
 		col.Add(fmt.Sprintf("%v|%v|%v|%d", c.proc, c.pipes, c.tasks, nJobs), multiLevel && special && nJobs >= 2,
-			map[string]int{"name-at>=2-levels": btoi(multiLevel), "special-value-overridden": btoi(special), "reserved-variable-job": btoi(reserved), "pipelines>=2": btoi(nP >= 2), "scheduled-over-http": btoi(viaHTTP)}, nJobs,
+			map[string]int{"name-at>=2-levels": btoi(multiLevel), "special-value-overridden": btoi(special), "reserved-variable-job": btoi(reserved), "pipelines>=2": btoi(nP >= 2), "scheduled-over-http": btoi(viaHTTP), "task-env-named-like-a-job-variable": btoi(clashes > 0)}, nJobs,
 			map[string]interface{}{"process": c.proc, "pipelines": c.pipes, "tasks": c.tasks, "jobs": nJobs, "reserved_job": reserved})
 	})
 }
